@@ -375,6 +375,24 @@ def reflection_bounded(run):
         '(typing.get_origin/get_args, inspect.signature)'))
 
 
+def alias_bounded(run):
+    try:
+        rc, out, err = run_native([os.path.join(
+            VERIF, 'checks', 'alias_native.py')], run.repo, timeout=600)
+        r = json.loads(out)
+    except Exception as ex:      # noqa
+        run.broken.append('alias stand-in failed to run: %r' % (ex,))
+        return
+    run.bounded.append(Bounded(
+        'alias-transparency', '6 class models (List[int], List[List[int]], '
+        'Dict[str, List[int]], List[Union[int, str]], Doc/Item classes, Any) '
+        'x hand-enumerated documents sharing equal sub-nodes through '
+        'anchors (valid and invalid), each compared with its alias-expanded '
+        'version; alias targets of the known findings D8/D22 excluded',
+        r['evaluations'], r['failures'],
+        'the real load functions on aliased vs expanded text'))
+
+
 def transforms_bounded(run):
     try:
         rc, out, err = run_native([os.path.join(
